@@ -2,6 +2,8 @@ package vrun
 
 import (
 	"fmt"
+	"sort"
+	"strings"
 	"sync"
 	"sync/atomic"
 	"testing"
@@ -75,6 +77,22 @@ func c05Teardown(idx int, seed uint64) {
 			return
 		}
 		V.PauseReading()
+		// every other round a second subscriber of the same topic, behind V in the fan-out: it leaves
+		// in good order while the publishers are held up on V, so that their deliveries reach a
+		// connection whose teardown has finished completely
+		var S2 *rawclient.Client
+		s2name := fmt.Sprintf("s2-%d-%d", idx, rd)
+		if rd%2 == 1 {
+			if S2 = connect(s2name, nil); S2 == nil {
+				out.Inconclusive("c05teardown: second subscriber", params)
+				return
+			}
+			S2.SendPacket(&rc.Packet{Type: rc.SUBSCRIBE, ID: 1, Filters: [][]byte{[]byte("flood/a")}, QoSs: []byte{0}})
+			if S2.WaitFor(func(l []rawclient.Event, closed bool) bool { return countType(l, rc.SUBACK) == 1 }, wait) != nil {
+				out.Inconclusive("c05teardown: second subscriber SUBACK", params)
+				return
+			}
+		}
 		// all publishers flood the victim's topic until the cut
 		var stop atomic.Bool
 		var wg sync.WaitGroup
@@ -99,6 +117,16 @@ func c05Teardown(idx int, seed uint64) {
 		}
 		if stalled {
 			out.Count("c05.teardown_stalled_rounds", 1)
+		}
+		if S2 != nil {
+			S2.SendPacket(&rc.Packet{Type: rc.DISCONNECT})
+			S2.Flush()
+			S2.Close()
+			if w.sink != nil && !w.sink.waitCount("stop.done", s2name, 1, wait) {
+				out.Inconclusive("c05teardown: teardown of the second subscriber not observed", params)
+				return
+			}
+			out.Count("c05.teardown_second_subscriber_gone_first", 1)
 		}
 		time.Sleep(time.Duration(r.Intn(3000)) * time.Microsecond)
 		V.Close() // the cut
@@ -147,6 +175,41 @@ func c05Teardown(idx int, seed uint64) {
 			}
 		}
 		out.Count("c05.teardown_rounds", 1)
+	}
+	// at the end everybody leaves: every teardown finishes, Server.Close returns, nothing remains
+	for _, p := range pubs {
+		p.Close()
+	}
+	wit.Close()
+	if w.sink != nil {
+		for i := range pubs {
+			if !w.sink.waitCount("stop.done", fmt.Sprintf("p%d", i), 1, wait) {
+				var tops []string
+				for _, g := range libGoroutines() {
+					tops = append(tops, g.libTop()+":"+g.state)
+				}
+				sort.Strings(tops)
+				fail("c16:teardown-incomplete:"+strings.Join(uniq(tops), "+"), fmt.Sprintf("publisher %d closed its connection after the rounds; its teardown did not finish; library goroutines: %v", i, uniq(tops)))
+				return
+			}
+		}
+	}
+	closed := make(chan struct{})
+	go func() { defer close(closed); defer func() { recover() }(); w.svr.Close() }()
+	select {
+	case <-closed:
+	case <-time.After(wait):
+		fail("c16:server-close-stuck", "Server.Close did not return after all connections had ended")
+		return
+	}
+	if left := noLibGoroutines(3 * time.Second); len(left) > 0 {
+		var tops []string
+		for _, g := range left {
+			tops = append(tops, g.libTop()+":"+g.state)
+		}
+		sort.Strings(tops)
+		fail("c16:goroutines-left:"+strings.Join(uniq(tops), "+"), fmt.Sprintf("%d library goroutines remain after every connection ended and Server.Close returned", len(left)))
+		return
 	}
 	out.Count("c05.teardown_cases", 1)
 	out.Class(fmt.Sprintf("teardown/p%d", npub))
